@@ -178,7 +178,14 @@ def shared_writes(P, funcs=None):
                         if t.id in globals_decl:
                             out.append(dict(func=f, node=n, target=f'global:{f.module.name}.{t.id}', kind='global-assign'))
                         elif t.id in nonlocals:
-                            out.append(dict(func=f, node=n, target=f'cell:{f.fq}.{t.id}', kind='nonlocal'))
+                            # a closure that never leaves the call that made it (only ever called there) writes that call's own variable
+                            pf_ = f.parent
+                            local_only = False
+                            if pf_ is not None and not isinstance(pf_.node, ast.Lambda):
+                                uses_ = [x_ for x_ in ast.walk(pf_.node) if isinstance(x_, ast.Name) and x_.id == f.name and isinstance(x_.ctx, ast.Load)]
+                                local_only = bool(uses_) and all(isinstance(getattr(x_, '_p', None), ast.Call) and x_._p.func is x_ for x_ in uses_)
+                            if not local_only:
+                                out.append(dict(func=f, node=n, target=f'cell:{f.fq}.{t.id}', kind='nonlocal'))
                     elif isinstance(t, ast.Subscript):
                         r = resolve_shared(P, f, t.value, cfgnode())
                         if r and not r.startswith(('class:', 'module:')):
